@@ -117,6 +117,13 @@ func (t *taint) analyse(f *ssa.Function) {
 						// comparisons produce booleans: not propagated
 						if !isCmp(x.Op) {
 							mark(x)
+						} else if usedByIf(x) {
+							// a loop counter bounded by a tainted value ranges over input-dependent indices
+							for _, o := range []ssa.Value{x.X, x.Y} {
+								if ph := counterOf(o); ph != nil {
+									mark(ph)
+								}
+							}
 						}
 					}
 				case *ssa.Convert:
@@ -267,4 +274,37 @@ func trustedSink(f *ssa.Function) bool {
 		}
 	}
 	return false
+}
+
+func usedByIf(v ssa.Value) bool {
+	if refs := v.Referrers(); refs != nil {
+		for _, r := range *refs {
+			if _, ok := r.(*ssa.If); ok {
+				return true
+			}
+		}
+	}
+	return false
+}
+
+// counterOf: v is a loop-header phi with a self-referential step edge, or such a phi plus/minus a constant.
+func counterOf(v ssa.Value) *ssa.Phi {
+	if bo, ok := v.(*ssa.BinOp); ok && (bo.Op == token.ADD || bo.Op == token.SUB) {
+		if _, isK := bo.Y.(*ssa.Const); isK {
+			v = bo.X
+		}
+	}
+	ph, ok := v.(*ssa.Phi)
+	if !ok {
+		return nil
+	}
+	if _, _, isInt := intWidth(ph.Type()); !isInt {
+		return nil
+	}
+	for _, e := range ph.Edges {
+		if bo, ok := e.(*ssa.BinOp); ok && (bo.Op == token.ADD || bo.Op == token.SUB) && bo.X == ssa.Value(ph) {
+			return ph
+		}
+	}
+	return nil
 }
